@@ -360,8 +360,7 @@ def check_sig(fn, what, names):
         raise U(f"{what}: signature {got}, expected {names}")
 
 
-@translate.lifter
-def lift(repo):
+def parse_methods(repo):
     src = open(os.path.join(repo, REL)).read()
     tree = ast.parse(src)
     cls = next((n for n in tree.body if isinstance(n, ast.ClassDef) and n.name == "DisaggregatedResult"), None)
@@ -374,6 +373,24 @@ def lift(repo):
     check_sig(meth["apply_grouping"], "apply_grouping", ["self", "grouping_function", "control_feature_names", "errors"])
     check_sig(meth["difference"], "difference", ["self", "control_feature_names", "method", "errors"])
     check_sig(meth["ratio"], "ratio", ["self", "control_feature_names", "method", "errors"])
+    return meth
+
+
+def world_terms(repo):
+    """{(method name, branch, control features present?): lifted term} for difference and ratio
+    (used by lifters/aggregate.py to read the grouping constants of `AggregateSpec` off the same terms)"""
+    meth = parse_methods(repo)
+    out = {}
+    for nm in ("difference", "ratio"):
+        for m in ("between_groups", "to_overall"):
+            for cf in (False, True):
+                out[nm, m, cf] = run_world(meth[nm], nm, {"method": m, "errors": None, "cf": cf})
+    return out
+
+
+@translate.lifter
+def lift(repo):
+    meth = parse_methods(repo)
     split = {}
     ag = {}
     for e in ("raise", "coerce"):
